@@ -1,5 +1,5 @@
 (* G12.ConntrackProofs — invariants of the closeListener LTS over ALL schedules. *)
-From Coq Require Import List Arith ZArith Bool Lia.
+From Coq Require Import List Arith NArith ZArith Bool Lia Permutation.
 From G12 Require Import Conntrack.
 Import ListNotations.
 
@@ -144,3 +144,31 @@ Proof.
   destruct (close_once c pre ls s E (cfinalb_final s F)) as (-> & _).
   destruct (c =? 0) eqn:Z; [apply Nat.eqb_eq in Z; lia | reflexivity].
 Qed.
+
+(* ---- byte counters ---- *)
+Lemma brun_from s ops : fold_left bstep ops s = (fst s + rx_sum ops, snd s + tx_sum ops)%N.
+Proof.
+  revert s. induction ops as [|o r IH]; intros [a c].
+  - cbn [fold_left rx_sum tx_sum fold_right fst snd]. f_equal; lia.
+  - cbn [fold_left]. rewrite IH. destruct o; unfold rx_sum, tx_sum; cbn [fold_right bstep fst snd]; f_equal; lia.
+Qed.
+
+(* the counters are exactly the sums of the n returned by the calls: rx over Read, tx over Write and ReadFrom *)
+Lemma byte_counters_are_sums ops : brun ops = (rx_sum ops, tx_sum ops).
+Proof. unfold brun. rewrite brun_from. reflexivity. Qed.
+
+(* ... whatever the order in which concurrent calls add to them *)
+Lemma rx_sum_perm a c : Permutation a c -> rx_sum a = rx_sum c.
+Proof.
+  induction 1 as [|x l l' _ IH|x y l|l l' l'' _ IH1 _ IH2]; [reflexivity | | | congruence].
+  - unfold rx_sum in *. cbn [fold_right]. rewrite IH. reflexivity.
+  - unfold rx_sum. cbn [fold_right]. destruct x, y; lia.
+Qed.
+Lemma tx_sum_perm a c : Permutation a c -> tx_sum a = tx_sum c.
+Proof.
+  induction 1 as [|x l l' _ IH|x y l|l l' l'' _ IH1 _ IH2]; [reflexivity | | | congruence].
+  - unfold tx_sum in *. cbn [fold_right]. rewrite IH. reflexivity.
+  - unfold tx_sum. cbn [fold_right]. destruct x, y; lia.
+Qed.
+Lemma byte_counters_order_irrelevant a c : Permutation a c -> brun a = brun c.
+Proof. intro P. rewrite !byte_counters_are_sums, (rx_sum_perm a c P), (tx_sum_perm a c P). reflexivity. Qed.
